@@ -6,6 +6,7 @@ from . import runner
 PROPS = {
     'C01': 'rsym.props.c01',
     'C03': 'rsym.props.c03',
+    'C14': 'rsym.props.c14',
     'C15': 'rsym.props.c15',
     'C25': 'rsym.props.c25',
 }
@@ -23,7 +24,8 @@ def main():
     mod = importlib.import_module(PROPS[pid])
     tier, seed = runner.tier_and_seed(argv)
     if '--replay' in argv:
-        return mod.replay(argv[argv.index('--replay') + 1])
+        fn = getattr(mod, 'replay_entry', None) or mod.replay
+        return fn(argv[argv.index('--replay') + 1])
     return mod.main(tier, seed)
 
 
